@@ -30,3 +30,16 @@ Proof.
   cbv zeta. split; [|split; reflexivity].
   constructor; [intros [H|[]]; discriminate|constructor; [intros []|constructor]].
 Qed.
+
+(* Unreal 2 multi-packet lists: the wire format carries no sequence numbers, so
+   the client cannot restore an order: recorded finding (known_findings.json),
+   with its witness: the same two player datagrams in both orders *)
+From GD Require Import Model.Unreal2.
+Definition u2_ex_info : bytes := [128; 0; 0; 0; 0] ++ [1; 0; 0; 0] ++ [1; 0] ++ [2; 0; 0; 0] ++ [3; 0; 0; 0] ++ [1; 0] ++ [1; 0] ++ [1; 0] ++ [2; 0; 0; 0] ++ [8; 0; 0; 0].
+Definition u2_ex_p1 : bytes := [128; 0; 0; 0; 2] ++ [1; 0; 0; 0] ++ [2; 65; 0] ++ [5; 0; 0; 0] ++ [0; 0; 0; 0] ++ [0; 0; 0; 0].
+Definition u2_ex_p2 : bytes := [128; 0; 0; 0; 2] ++ [2; 0; 0; 0] ++ [2; 66; 0] ++ [6; 0; 0; 0] ++ [0; 0; 0; 0] ++ [0; 0; 0; 0].
+Theorem c08_unreal2_order_refuted :
+  fst (u2_query 7778 (Some (mk_u2g Enforce Skip)) None (net_init [Datagram u2_ex_info; Datagram u2_ex_p1; Datagram u2_ex_p2] [] []))
+  <> fst (u2_query 7778 (Some (mk_u2g Enforce Skip)) None (net_init [Datagram u2_ex_info; Datagram u2_ex_p2; Datagram u2_ex_p1] [] [])).
+Proof. vm_compute. discriminate. Qed.
+Print Assumptions c08_unreal2_order_refuted.
